@@ -164,7 +164,9 @@ impl Check for C12 {
         let ereal = run_query(&eprog, &cfg);
         if usable(&ereal, &mut out, &eprog, "explicit conjunction") {
             out.count("explicit_conjunction_compared", 1);
-            if let Cmp::Different(why) = compare_multisets(&real.answers, &ereal.answers, &uni) {
+            if cut_at_cap(real.ended, real.answers.len(), ereal.ended, ereal.answers.len()) {
+                out.count("comparisons_skipped_answer_cap", 1);
+            } else if let Cmp::Different(why) = compare_multisets(&real.answers, &ereal.answers, &uni) {
                 out.violate(
                     "M-meta",
                     if n == 0 { "for over an empty collection does not succeed exactly once" } else { "for differs from the explicit conjunction of its body over the collection" },
@@ -176,7 +178,9 @@ impl Check for C12 {
         match ref_answers(&prog, false) {
             Ok(r) => {
                 out.count("reference_compared", 1);
-                if let Cmp::Different(why) = compare_multisets(&real.answers, &r, &uni) {
+                if cut_at_cap(real.ended, real.answers.len(), true, r.len()) {
+                    out.count("comparisons_skipped_answer_cap", 1);
+                } else if let Cmp::Different(why) = compare_multisets(&real.answers, &r, &uni) {
                     out.violate("M-ref", "for answers differ from the reference semantics", format!("{} | real {} | reference {}", why, show_answers(&real.answers), show_answers(&r)), format!("{}", prog));
                 }
             }
